@@ -239,7 +239,7 @@ Section Cipher.
   Proof.
     intros Hpe H. unfold encrypt_phase1 in H.
     destruct (has_enc st); [inversion H; subst; split; [reflexivity|exact Hpe]|].
-    destruct (pop o) as [b o1]. destruct b; cbn [negb] in H; [|inversion H; subst; cbn; split; [reflexivity|exact Hpe]].
+    destruct (pop o) as [b o1]. destruct b; cbn [negb] in H; [|destruct chk; inversion H; subst; cbn; split; [reflexivity|exact Hpe|reflexivity|exact Hpe]].
     destruct (pop o1) as [wm o2].
     assert (T0 : in_txn (db_begin (w_db st))) by (eexists; reflexivity).
     destruct wm; cbn [negb andb] in H.
@@ -551,7 +551,7 @@ Section Cipher.
     destruct (encrypt_phase1 chk c st pass mk salt o) as [[st1 r1]|st2] eqn:P1.
     - inversion H; subst; clear H. unfold encrypt_phase1 in P1.
       destruct (has_enc st); [inversion P1; subst; split; assumption|].
-      destruct (pop o) as [b o1]. destruct b; cbn [negb] in P1; [|inversion P1; subst; split; assumption].
+      destruct (pop o) as [b o1]. destruct b; cbn [negb] in P1; [|destruct chk; inversion P1; subst; split; assumption].
       destruct (pop o1) as [wm o2]. destruct (negb wm && chk); [inversion P1; subst; split; [exact M|apply db_abort_no_plain, db_begin_no_plain; exact D]|].
       match type of P1 with context [encrypt_all chk c mk (w_spk st) ?dd o2] => assert (DD : db_no_plain dd); [|destruct (encrypt_all chk c mk (w_spk st) dd o2) as [[[spk' d2] o3]|] eqn:E] end.
       { destruct wm; [apply db_write_no_plain; [apply db_begin_no_plain; exact D|intros i X; discriminate]|apply db_begin_no_plain; exact D]. }
